@@ -105,6 +105,7 @@ func cmdWorker(args []string) int {
 	out := fs.String("out", "", "")
 	seed := fs.Int64("seed", 0, "")
 	deadline := fs.Int64("deadline", 0, "")
+	claim := fs.String("claim", "", "")
 	fs.Parse(args)
 	c := Lookup(*prop)
 	if c == nil {
@@ -174,7 +175,16 @@ func cmdWorker(args []string) int {
 		}
 	}()
 
-	for u := *idx; u < units; u += *n {
+	next := func(prev int) int {
+		if *claim != "" {
+			return claimUnit(*claim)
+		}
+		if prev < 0 {
+			return *idx
+		}
+		return prev + *n
+	}
+	for u := next(-1); u < units; u = next(u) {
 		w.Unit = u
 		func() {
 			defer func() {
@@ -289,6 +299,7 @@ func cmdCheck(args []string) int {
 	}
 	defer os.RemoveAll(scratch)
 
+	os.WriteFile(filepath.Join(scratch, "claim"), []byte("0"), 0o644)
 	self, _ := os.Executable()
 	dl := time.Now().Add(horizon(*tier)).Unix()
 	type wres struct {
@@ -304,7 +315,7 @@ func cmdCheck(args []string) int {
 			defer wg.Done()
 			out := filepath.Join(scratch, fmt.Sprintf("w%d.json", i))
 			cmd := exec.Command(self, "worker", "-prop", id, "-tier", *tier, "-idx", strconv.Itoa(i), "-n", strconv.Itoa(nw),
-				"-out", out, "-seed", strconv.FormatInt(seed, 10), "-deadline", strconv.FormatInt(dl, 10))
+				"-out", out, "-seed", strconv.FormatInt(seed, 10), "-deadline", strconv.FormatInt(dl, 10), "-claim", filepath.Join(scratch, "claim"))
 			gmp := "GOMAXPROCS=1"
 			if c.Sequential {
 				gmp = "GOMAXPROCS=" + strconv.Itoa(runtime.NumCPU())
